@@ -416,6 +416,8 @@ class MultiAxis(Axis):
         self._values = None  # values not computed unless needed
         self._size = None  
         self._attrs = dict()
+        self._tol = None
+        self._monotonic = None
 
     @property
     def values(self):
